@@ -125,6 +125,10 @@ impl Link {
         self.ops.is_empty()
     }
 
+    pub fn has_symbol_at(&self, op_addr: Address) -> bool {
+        self.symbols.values().any(|(addr, _)| *addr == op_addr)
+    }
+
     pub fn len(&self) -> usize {
         self.ops.len()
     }
